@@ -59,5 +59,5 @@ Init == l = 1
 Next == Unit
 Accepted == LET d == TLCGet("stats").diameter IN
             IF d - 1 = Len(Rec) THEN TRUE
-            ELSE Print(<<"UNMATCHED", d, ToJson(Rec[d])>>, FALSE)
+            ELSE Print(<<"UNMATCHED", d, ToJson([line |-> d])>>, FALSE)
 =============================================================================
